@@ -97,8 +97,10 @@ Proof.
   - destruct (wake_out _ _ _ _ _ _ Hs Hin) as [lp [_ [_ [_ [[Ht [Hfe _]]|[_ [Hfe _]]]]]]].
     + subst f. simpl. exact Ht.
     + subst f. rewrite restore_not_forged in Hf by auto. discriminate.
-  - unfold rx_arp in Hs. unfold known_C13_probe_router in Hk. destruct (classify p) eqn:Hcl;
-      try (inversion Hs; subst; contradiction).
+  - unfold rx_arp in Hs. unfold known_C13_probe_router in Hk.
+    destruct (closed s) eqn:Hclo; [inversion Hs; subst; contradiction|].
+    cbn [negb andb] in Hk.
+    destruct (classify p) eqn:Hcl; try (inversion Hs; subst; contradiction).
     + destruct (hunt_has (psmac p) (hunt s) && (ptip p =? router_ip c)) eqn:Hh;
         inversion Hs; subst; try contradiction.
       destruct Hin as [Hin|[]]; subst f. simpl. unfold hunted.
@@ -191,11 +193,13 @@ Proof. reflexivity. Qed.
 
 Theorem rx_spec : forall c s p,
   step c s (RxArp p) =
-  (s, if sp_is_probe p
+  (s, if closed s then []
+      else if sp_is_probe p
       then (if sp_reject_cond c (offer_of (psmac p) (offers s)) p then [probe_reject c p] else [])
       else (if sp_asks_router c p && hunted s (psmac p) then [spoof_reply c p] else [])).
 Proof.
-  intros c s p. simpl. unfold rx_arp, classify, sp_is_probe, sp_reject_cond, sp_is_probe, sp_asks_router, hunted, IP4_ZERO.
+  intros c s p. simpl. unfold rx_arp. destruct (closed s); [reflexivity|].
+  unfold classify, sp_is_probe, sp_reject_cond, sp_is_probe, sp_asks_router, hunted, IP4_ZERO.
   destruct (psip p =? 0) eqn:Es.
   - assert (Hs : psip p = 0) by lia. rewrite Hs in *. rewrite link_local_zero. simpl.
     destruct (link_local (ptip p)) eqn:Elt; simpl.
@@ -264,7 +268,7 @@ Qed.
 
 Lemma rx_state c s p : fst (rx_arp c s p) = s.
 Proof.
-  unfold rx_arp. destruct (classify p); auto.
+  unfold rx_arp. destruct (closed s); auto. destruct (classify p); auto.
   - destruct (_ && _); auto.
   - destruct (offer_of _ _); auto. destruct (_ && _); auto.
 Qed.
@@ -486,55 +490,34 @@ Proof.
   rewrite Hs in H1. exact H1.
 Qed.
 
-(* full strength: after Close NO forged frame is emitted by any event. False of the code (K3). *)
-Theorem close_stops_refuted :
-  exists c pre post s e out f,
-    cfg_ok c /\ In (s, e, out) (trace c (final c init_state (pre ++ [Close])) post) /\
-    In f out /\ forged c f = true.
+(* full strength: after Close NOTHING is emitted by any event (any state) *)
+Lemma closed_silent c s e : closed s = true -> snd (step c s e) = [].
 Proof.
-  exists wit_cfg, [StartHunt (mkAddr wit_m1 3232235522); Wake 0],
-    [Wake 0; RxArp (mkPkt 1 wit_m1 wit_m1 3232235522 0 3232235531)].
-  eexists; eexists; eexists; eexists.
-  split; [unfold cfg_ok; simpl; lia|].
-  split; [vm_compute; right; left; reflexivity|].
-  split; [left; reflexivity|]. vm_compute. reflexivity.
+  intros Hc. destruct e; simpl; auto.
+  - unfold start_hunt. destruct (hunt_has _ _); auto.
+  - apply (close_wake_silent c s i Hc).
+  - unfold rx_arp. rewrite Hc. reflexivity.
 Qed.
 
-Lemma closed_forged_known c s e f :
-  closed s = true -> In f (snd (step c s e)) -> forged c f = true ->
-  known_C13_reply_after_close c s e = true.
-Proof.
-  intros Hc Hin Hf. destruct e; simpl in Hin; try contradiction.
-  - unfold start_hunt in Hin. destruct (hunt_has _ _); simpl in Hin; contradiction.
-  - destruct (close_wake_silent c s i Hc) as [H1 _]. simpl in H1. rewrite H1 in Hin. contradiction.
-  - simpl. rewrite Hc. simpl. apply existsb_exists. exists f. auto.
-Qed.
-
-Theorem close_stops_partial : forall c pre post s e out f,
+Theorem close_stops : forall c pre post s e out,
   In (s, e, out) (trace c (final c init_state (pre ++ [Close])) post) ->
-  In f out -> forged c f = true ->
-  known_C13_reply_after_close c s e = true.
+  out = [] /\
+  forall i lp, e = Wake i -> nth_error (loops (fst (step c s e))) i = Some lp -> alive lp = false.
 Proof.
-  intros c pre post s e out f Hin Hf Hfo.
+  intros c pre post s e out Hin.
   assert (Hc : closed s = true).
   { apply (closed_along c (final c init_state (pre ++ [Close])) post (s, e, out)); auto. apply closed_after_close. }
-  apply trace_in in Hin as [s' Hs]. cbn [fst snd] in Hs.
-  apply closed_forged_known with (f := f); auto. rewrite Hs. exact Hf.
-Qed.
-
-(* what K3 is, spelled out: the event is a received packet on a closed handler whose answer is forged *)
-Lemma known_after_close_shape c s e :
-  known_C13_reply_after_close c s e = true ->
-  exists p, e = RxArp p /\ closed s = true /\ existsb (forged c) (snd (step c s e)) = true.
-Proof.
-  destruct e; simpl; try discriminate. intros H. apply andb_true_iff in H as [H1 H2].
-  exists p. auto.
+  split.
+  - apply trace_in in Hin as [s' Hs]. cbn [fst snd] in Hs.
+    pose proof (closed_silent c s e Hc) as H. rewrite Hs in H. exact H.
+  - intros i lp He. subst e. apply (close_wake_silent c s i Hc).
 Qed.
 
 Example close_stops_nonvacuous :
   let c := wit_cfg in
-  outputs c init_state [StartHunt (mkAddr wit_m1 3232235522); Wake 0; Close; Wake 0; Wake 0] =
-    [[]; [announce c wit_m1]; []; []; []] /\
+  outputs c init_state [StartHunt (mkAddr wit_m1 3232235522); Wake 0; Close; Wake 0; Wake 0;
+                        RxArp (mkPkt 1 wit_m1 wit_m1 3232235522 0 3232235531)] =
+    [[]; [announce c wit_m1]; []; []; []; []] /\
   loop_is (final c init_state [StartHunt (mkAddr wit_m1 3232235522); Wake 0; Close; Wake 0]) 0
           (mkAddr wit_m1 3232235522) false.
 Proof. vm_compute. split; reflexivity. Qed.
